@@ -14,6 +14,16 @@ STRENGTHENED = {
  "C20-a": "after the crash specification was applied to every traced save (first-time creation scenarios)",
  "C22-a": "after frames were observed the way the slowest legal consumer of the 32-slot channel sees them",
  "C32-a": "after the errC capacity facts/theorem and the busy-connection shutdown workloads were added",
+ "C01-b": "after coins-wrap kinds and the single-defect block sweep joined the ledger generator (C09: after mid-list wrap outputs)",
+ "C03-b": "C31 as first built; C03 after accepted blocks whose input hours overflow were tagged",
+ "C05-b": "after tie histories (13-19 pending transactions of equal fee priority, two rounds) were added",
+ "C08-b": "after the start-up-rebuild scenario on a 1000+ block chain, crashed at every commit boundary, was added",
+ "C13-b": "after wallet.CreateTransactionSigned with interleaved input ownership was driven and `created_sigs_verify` stated",
+ "C17-b": "after failing transaction finders (scanfail) were added to the op generator",
+ "C18-b": "after purity checks (the locked wallet is unchanged by Unlock/Clone use) and alias ops were added",
+ "C27-b": "after the byte-level token spec (sig = HMAC(key,payload)) and spliced/re-dated forged tokens were added",
+ "C33-b": "C04 as first built; C33 after substituted-body forgeries joined the sync profile",
+ "C31-b": "as first built (C03 reports the broken theorem only)",
  "C07-b": "after the balance view (GetBalanceOfAddresses) joined the whole-state digest and the model",
 }
 rows = []
